@@ -158,6 +158,9 @@ def run(repo, rep, tier):
     models = build_models(repo)
     r1 = rep.rule("R10.1", "type of `other` established (with a raising failure edge) before any mutation/construction", floor=38)
     r2 = rep.rule("R10.2", "every structural parameter is compared with a raising mismatch edge", floor=30)
+    # the declared content type is what empty reloaded containers are compared by: it must survive zero/+/*
+    rep.borrow(repo, "C04", {"R4.5": ("R10.4", "the content type that the compatibility guards compare survives zero/+/* in reloaded form", 40)},
+               keep=lambda f: "contentType" in f.message or "contentType" in f.stmt)
     r3 = rep.rule("R10.3", "+= rejects atomically: no state change before an operation that can still raise", floor=19)
     for c in prims:
         m = models[c.name]
